@@ -417,7 +417,7 @@ M('seed2-C15-mask-after-strip', ['C15'], VO, "            logger.info(f'video cr
 M('seed2-C09-ensure-ascii-false', ['C09'], MQ, "data = json_dumps(frame.data, separators=(',', ':')).encode() if frame.data else None", "data = json_dumps(frame.data, separators=(',', ':'), ensure_ascii=False).encode() if frame.data else None", ['C09.R2'])
 M('seed2-C16-bad-file-fails-open', ['C16'], CF, "        except Exception as e:\n            print(f\"Warning: Failed to read allowlist from {path}: {e}\")\n    \n    # Try environment variable", "        except Exception as e:\n            print(f\"Warning: Failed to read allowlist from {path}: {e}\")\n            return None\n    \n    # Try environment variable", ['C16.R3'])
 M('seed2-C14-restore-promotes-tmp', ['C14'], RL, "        if head is not None:\n            if not os.path.exists(head):  # exists() and not isfile() because we want to error on a directory", "        if head is not None:\n            if os.path.isfile(head + '.tmp'):\n                os.rename(head + '.tmp', head)\n\n            if not os.path.exists(head):  # exists() and not isfile() because we want to error on a directory", ['C14.R1'])
-M('seed-C08-propagated-error-announced-clean', ['C08'], F, "                        is_exc = isinstance(sys.exc_info()[1], Exception)\n", "                        is_exc = isinstance(sys.exc_info()[1], Exception) and not isinstance(sys.exc_info()[1], Filter.PropagateError)\n", ['C08.R1', 'C08.R1b'])
+M('seed-C08-propagated-error-announced-clean', ['C08'], F, "                        is_exc = isinstance(in_flight, Exception)  #", "                        is_exc = isinstance(in_flight, Exception) and not isinstance(in_flight, Filter.PropagateError)  #", ['C08.R1', 'C08.R1b'])
 
 # ------------------------------------------------------------------------------------------------------ round 3 seeds
 M('seed3-C01-close-resets-shared-expected-id', ['C01', 'C02', 'C07'], Z, "                            sender.min_recv_id = MSG_ID_INITIAL  # for ephemeral only", "                            if sender_eph:\n                                sender.min_recv_id = MSG_ID_INITIAL\n                            else:\n                                min_recv_id = MSG_ID_INITIAL  # for ephemeral only", ['C01.R10', 'C02.R2', 'C07.R4'])
@@ -731,3 +731,4 @@ M('zmq-D64-shape-required-eph-close-spared', ['C03', 'C06'], Z, "if not client.e
 M('cli-D65-shape-generated-ids-ignore-user-ids', ['C12'], CLI, "    used_ids = {config.id for _, config, _ in filters if config.id is not None}\n", "    used_ids = set()\n", ['C12.R6'])
 M('cli-generated-id-not-recorded', ['C12'], CLI, "            config.id = new_id\n\n            used_ids.add(new_id)\n", "            config.id = new_id\n", ['C12.R6'])
 M('cli-single-name-not-first-choice', ['C12'], CLI, "            new_id = filter_name if len(configs) == 1 else None\n", "            new_id = None\n", ['C12.R6'])
+M('run-D66-shape-exit-kind-from-exc-info', ['C08'], F, "                        is_exc = isinstance(in_flight, Exception)  #", "                        is_exc = isinstance(sys.exc_info()[1], Exception)  #", ['C08.R10'])
